@@ -2,6 +2,7 @@
    N/Z/positive/nat stay Coq datatypes; no Extract Constant). Run from the output dir. *)
 From Coq Require Import Extraction ExtrOcamlBasic.
 From KV Require Import Bytes WalCodec Memtable Engine.
+From KV Require Import Config.
 Extraction Language OCaml.
 Set Extraction Output Directory ".".
 Separate Extraction
@@ -12,4 +13,8 @@ Separate Extraction
   WalCodec.wal_new_file WalCodec.wal_update_next WalCodec.canon WalCodec.wf_entry
   Memtable.mt_iter_entries Memtable.seek_ge
   Engine.init Engine.put Engine.del Engine.apply_batch Engine.tx_commit Engine.get Engine.flush
-  Engine.reopen Engine.run Engine.buffer_ops.
+  Engine.reopen Engine.run Engine.buffer_ops
+  Config.default_config Config.zero_config Config.field_lookup Config.kind_of Config.name_of Config.all_fields
+  Config.get_int Config.get_str Config.set_int Config.set_str Config.set_ratio Config.validate Config.encode
+  Config.save Config.load Config.load_bytes Config.open_db Config.no_dir Config.mkdir Config.truncate_manifest
+  Config.flip_bit Config.pnum Config.float_of_num Config.enc_int Config.N_of_dec Config.dec_of_N.
